@@ -106,6 +106,7 @@ PROPS = {
         "parts": {
             "iso": {"bin": "verifh", "run": "TestC12Iso", "checks": {"quick": 300, "thorough": 32000}, "shards": {"quick": 4, "thorough": 16}},
             "id-static": {"bin": "omni", "run": "TestC12Static", "checks": {"quick": 2000, "thorough": 100000}, "shards": {"quick": 1, "thorough": 8}},
+            "id-dup-main": {"bin": "omni", "run": "TestC12DupMain", "kind": "plain"},
             "id-main": {"bin": "omni", "run": "TestC12ViaMain", "checks": {"quick": 3, "thorough": 96}, "shards": {"quick": 1, "thorough": 8}, "shrinktime": "90s"},
         },
     },
@@ -144,6 +145,7 @@ PROPS = {
             "words": {"bin": "omni", "run": "TestC13Words", "kind": "plain", "shards": {"quick": 1, "thorough": 4}},
             "never": {"bin": "omni", "run": "TestC13Never", "kind": "plain"},
             "sizes": {"bin": "omni", "run": "TestC13Sizes", "kind": "plain"},
+            "adapter": {"bin": "omni", "run": "TestC13Adapter", "kind": "plain"},
             "real": {"bin": "omni", "run": "TestC13Real", "checks": {"quick": 2, "thorough": 12}, "shards": {"quick": 1, "thorough": 4}},
         },
     },
